@@ -331,8 +331,6 @@ impl<CharIter: Iterator<Item = char>> Lexer<CharIter> {
                                             '"' => string_literal.push('"'),
                                             '\\' => string_literal.push('\\'),
                                             '|' => string_literal.push('|'),
-                                            'x' => (), // TODO: 'x' for hex value
-                                            ' ' => (), // TODO: space for nothing
                                             other => {
                                                 return located_error!(
                                                     SyntaxError::UnknownEscape(*other),
